@@ -11,3 +11,7 @@ func TestC03(t *testing.T) { runProp(t, "C03", drawC03) }
 func TestC04(t *testing.T) { runProp(t, "C04", drawC04) }
 
 func TestC12(t *testing.T) { runProp(t, "C12", drawC12) }
+
+func TestC01(t *testing.T) { runProp(t, "C01", drawC01) }
+
+func TestC11(t *testing.T) { runProp(t, "C11", drawC11) }
